@@ -90,8 +90,14 @@ def os_case(args) -> dict:
             kind in ("deleted", "emptied") or codec_rejects(struct, target))
         N = len(ref["train"])
         real_fmt = "fb" if fmt == "fbraw" else fmt
+        # independent of the library's own decoder: a missing file, and a
+        # zero-length FlatBuffers / npz file, can never be a shard holding
+        # the examples that were written (an empty TFRecord file is valid)
+        hard = kind == "deleted" or (kind == "emptied" and
+                                     real_fmt in ("fb", "npz"))
         for iface in dsfamily.interfaces(real_fmt, with_rust=True):
-            required = rs_rejects if iface == "rust" else py_rejects
+            required = rs_rejects if iface == "rust" else (py_rejects or
+                                                           hard)
             for sh in (0, 3):
                 for par in ((1, 2, 6) if iface != "sync" else (None,)):
                     kw = {"shuffle": sh}
@@ -306,8 +312,11 @@ def run(ctx):
         "the OS schedule with a watchdog")
     ctx.cov["exhaustive"] = True
     ctx.assumptions[:] = [
-        "self-calibrated requirement: garbage that the decoder accepts is "
-        "not demanded to raise",
+        "requirement: a deleted shard, and an emptied fb / npz shard, must "
+        "raise in every Python reader regardless of what the library's "
+        "decoder does; for truncation and garbage the requirement is "
+        "self-calibrated (damage that the library's decoder accepts is not "
+        "demanded to raise)",
         "tf.data and async readers: OS schedule only",
     ]
 
